@@ -63,6 +63,7 @@ class Acc:
     # ------------------------------------------------------------------ recording
     def case(self, key, nontrivial=True, outcome=None, calls=1, sample=None):
         """Record one explored case. `key` is a hashable canonical form of the input."""
+        reset_library_caches()      # the next case starts without memo state of this one
         self.evaluations += 1
         self.calls += calls
         if nontrivial:
@@ -139,3 +140,38 @@ class Acc:
                 self.extra.setdefault(k, v)
         self.errors.extend(o.errors)
         return self
+
+
+# ------------------------------------------------------------------------------------------
+# library-global memo caches: a case must not see what an earlier case of the same worker process
+# left in a functools cache of the library (otherwise a violation depends on the shard history and
+# cannot be replayed alone). Checks call reset_library_caches() at the start of a case; the
+# in-case oracles (e.g. C07 "second parse after mutating the first result") still see the cache.
+
+_CACHES = {'nmods': -1, 'found': []}
+
+
+def reset_library_caches():
+    import sys
+    if len(sys.modules) != _CACHES['nmods']:
+        mods = [m for n, m in list(sys.modules.items())
+                if m is not None and (n == 'pywbem' or n.startswith('pywbem.') or n == 'pywbem_mock' or
+                                      n.startswith('pywbem_mock.'))]
+        found, seen = [], set()
+
+        def consider(obj):
+            f = getattr(obj, '__func__', obj)
+            if hasattr(f, 'cache_clear') and hasattr(f, 'cache_info') and id(f) not in seen:
+                seen.add(id(f))
+                found.append(f)
+        for m in mods:
+            for v in list(vars(m).values()):
+                consider(v)
+                if isinstance(v, type) and getattr(v, '__module__', '').startswith('pywbem'):
+                    for a in list(vars(v).values()):
+                        consider(a)
+        _CACHES['nmods'] = len(sys.modules)
+        _CACHES['found'] = found
+    for f in _CACHES['found']:
+        f.cache_clear()
+    return len(_CACHES['found'])
